@@ -505,10 +505,16 @@ def prof_iters(g):
 
 
 def prof_count(g):
-    # every step is followed by obs (len, is_empty, iter)
+    # every step is followed by obs (len, is_empty, iter); clone / clone_from / collect in between
     for _ in range(g.r.randint(4, 30)):
         g.mutate('A', 'full')
         g.emit('obs A')
+        r = g.r.random()
+        if r < 0.06:
+            g.emit('save A')
+        elif r < 0.14:
+            g.emit('clone A')
+            g.emit('obs A')
     for _ in range(g.r.randint(0, 5)):
         set_step(g)
 
@@ -792,6 +798,42 @@ def prof_arena(g):
     g.emit('obs A')
 
 
+def prof_arenax(g):
+    """C16/C20: the whole arena slot by slot against the arena-level model (Arena.v, Arena2.v).  Only
+    operations that model transcribes mutate the map (insert, remove, remove_keep_tree, clear,
+    remove_children, retain incl. panicking predicates, get_mut, TrieViewMut::set/remove/value_mut);
+    after every one of them the complete arena (length, free list in stack order, counter, and the
+    left link / right link / has-value flag of EVERY slot, released ones included) is compared."""
+    for _ in range(g.r.randint(6, 40)):
+        r = g.r.random()
+        if r < 0.36:
+            g.op_insert('A')
+        elif r < 0.6:
+            g.op_remove('A')
+        elif r < 0.7:
+            g.op_remove('A', 'remk')
+        elif r < 0.76:
+            g.op_remc('A')
+        elif r < 0.84:
+            g.op_retain('A', panic=(g.r.random() < 0.3))
+        elif r < 0.86:
+            g.op_clear('A')
+        elif r < 0.9:
+            g.emit('getmut A %s %s' % (g.p(g.pick('A', 0.7)), g.fn()))
+        else:
+            nav = g.nav('A', mutable=True)
+            act = g.r.choice(['set:%d' % g.val(), 'remove', 'vmut:' + g.fn(), 'pvmut:' + g.fn(), 'info'])
+            g.emit('viewmut A %s %s' % (nav, act))
+            g.emit('obs A')   # resynchronise the generator's own bookkeeping is not needed: obs is an observer
+            # the generator's map bookkeeping does not follow view writes; forget it
+            g.maps['A'] = dict(g.maps['A'])
+        g.emit('arenax A')
+        if g.r.random() < 0.2:
+            g.emit('q A %s' % g.p(g.pick('A', 0.4, 0.4)))
+    g.emit('obs A')
+    g.emit('arena A')
+
+
 def prof_churn(g, cycles=2000):
     """C16: long churn over a bounded working set"""
     ws = [g.rand_key() for _ in range(g.r.randint(4, 24))]
@@ -993,7 +1035,7 @@ PROFILES = {
     'hist': prof_c01, 'queries': prof_queries, 'iters': prof_iters, 'count': prof_count,
     'count_nov': prof_count_nov, 'setops': prof_setops, 'setops_mut': prof_setops_mut,
     'bulk': prof_bulk, 'retain': prof_retain, 'views': prof_views, 'find': prof_find, 'muttrav': prof_muttrav,
-    'shape': prof_shape, 'arena': prof_arena, 'churn': prof_churn, 'hostbits': prof_hostbits,
+    'shape': prof_shape, 'arena': prof_arena, 'arenax': prof_arenax, 'churn': prof_churn, 'hostbits': prof_hostbits,
     'excl': prof_excl, 'eq': prof_eq, 'panic': prof_panic, 'known': prof_known, 'alg': prof_alg,
 }
 
